@@ -32,7 +32,8 @@ BASIC = ["Bool"] + list(INT_RANGE) + ["Float", "Double", "String", "Char", "Byte
 ARRAY_ELEMS = BASIC + OPAQUE                    # = ArrayType: every variant except Vector and Array
 VARIANTS = ARRAY_ELEMS + ["Vector"]             # every Value variant except Array
 STRINGS = ["", "x", "abc", "it's", "a\\b", "%_", "é", "q\"q", "line\nbreak", "tab\t", "$1", "?", "a'b'c", "\\", "\\'",
-           "NULL", "'{}'", "ARRAY [1]", "a,b", "{\"k\":1}", "\U0001F600", "\x1a", "--", "/*", "';--"]
+           "NULL", "'{}'", "ARRAY [1]", "a,b", "{\"k\":1}", "\U0001F600", "\x1a", "--", "/*", "';--",
+           "é'ü", "中\"文'", "\\é'\U0001F600"]
 
 
 def finite_f32(rng):
